@@ -108,6 +108,61 @@ func rep(s string, n int) string {
 
 func zs(n int) string { return string(make([]byte, n)) }
 
+func fnvOf(s string, a int, b int) uint32 {
+	h := uint32(2166136261)
+	for i := a; i < b; i++ {
+		h ^= uint32(s[i])
+		h *= 16777619
+	}
+	return h
+}
+
+// dg: digest of a large result — "length:checksum,checksum of each 1 KiB block,..." (checksums computed here, not by
+// a library); the comparison side derives the first differing block from it
+func dg(s string) string {
+	parts := make([]byte, 0, 64)
+	parts = append(parts, itoa64(int64(len(s)))...)
+	parts = append(parts, ':')
+	parts = append(parts, itoa64(int64(fnvOf(s, 0, len(s))))...)
+	for i := 0; i < len(s); i += 1024 {
+		e := i + 1024
+		if e > len(s) {
+			e = len(s)
+		}
+		parts = append(parts, ',')
+		parts = append(parts, itoa64(int64(fnvOf(s, i, e)))...)
+	}
+	return string(parts)
+}
+
+func dgb(k int, b []byte) string { return dg(string(b)) }
+
+func catS(k int, v []string) string {
+	n := 0
+	for i := 0; i < len(v); i++ {
+		n += len(v[i]) + 1
+	}
+	b := make([]byte, 0, n)
+	for i := 0; i < len(v); i++ {
+		b = append(b, v[i]...)
+		b = append(b, '|')
+	}
+	return string(b)
+}
+
+func catB(k int, v [][]byte) string {
+	n := 0
+	for i := 0; i < len(v); i++ {
+		n += len(v[i]) + 1
+	}
+	b := make([]byte, 0, n)
+	for i := 0; i < len(v); i++ {
+		b = append(b, v[i]...)
+		b = append(b, '|')
+	}
+	return string(b)
+}
+
 func nz(s string) string {
 	b := make([]byte, 0, len(s))
 	for i := 0; i < len(s); i++ {
@@ -275,10 +330,28 @@ func mapper(k int) func(rune) rune {
 '''
 
 
+class BigStr(bytes):
+    """a large byte string `pre + unit*n + suf`, materialised on the Python side (classification, model tie, replay) but
+    rendered in the driver as `pre + rep(unit, n) + suf`, so that 64 KiB arguments cost a few bytes of source"""
+
+    def __new__(cls, pre, unit, n, suf=b""):
+        o = super().__new__(cls, bytes(pre) + bytes(unit) * n + bytes(suf))
+        o.parts = (pre, unit, n, suf)
+        return o
+
+
 def go_str(b):
     """Go interpreted string literal for the byte string b (non-printable / non-ASCII bytes as \\xNN)."""
     if isinstance(b, str):
         b = b.encode("utf-8")
+    if isinstance(b, BigStr):
+        pre, unit, n, suf = b.parts
+        e = "rep(%s, %d)" % (go_str(unit) if isinstance(unit, BigStr) else go_str(bytes(unit)), n)
+        if len(pre):
+            e = (go_str(pre) if isinstance(pre, BigStr) else go_str(bytes(pre))) + " + " + e
+        if len(suf):
+            e = e + " + " + (go_str(suf) if isinstance(suf, BigStr) else go_str(bytes(suf)))
+        return "(" + e + ")"
     if b and not any(b):
         # an all-zero literal would be de-duplicated by the Wa compiler against zero-initialised (mutable) global
         # storage of the data segment (wir/wat/data_seg.go Append) — build it at run time instead
